@@ -9,6 +9,7 @@ import Proofs.JsonBytes
 import Proofs.JsonBytesLocal
 import Proofs.JsonBytesFilter
 import Proofs.InvocationStrValid
+import Proofs.JsonBytesAgree
 namespace Martian.JsonBytes
 open Martian.Json (J Num)
 open Martian.Lexer (Bytes)
@@ -517,5 +518,20 @@ theorem filterBytes_parses (t : Martian.Types.Ty) (hk : tyKeysOk t = true) (data
     refine ⟨a, rfl, h.1.symm, ?_⟩
     rw [← h.1]
     exact parseTop_of_den (sound_filterA t hk a (sound_of_parseTopA data a hp)).den
+
+
+/-- FILTER BYTES = FILTER TREE: for every well-formed type and every input the grammar accepts, if
+the filter does not fail fatally then the bytes it returns parse to a tree that is – as a map
+decode sees it – the tree-level model's filter of the tree the input parses to. -/
+theorem filterBytes_tree (t : Martian.Types.Ty) (hwf : t.wf = true) (hk : tyKeysOk t = true) (data out : Bytes)
+    (e : Martian.Types.FErr) (h : filterBytes t data = some (out, e)) (hne : e ≠ .fatal) :
+    ∃ j0 j, parseTop data = some j0 ∧ parseTop out = some j ∧ EqL j (Martian.TypesR.filter t j0).1 := by
+  obtain ⟨a, ha, hout, hp⟩ := filterBytes_parses t hk data out e h
+  have he : (filterA t a).err = e := by
+    unfold filterBytes at h
+    simp only [ha, Option.map_some, Option.some.injEq, Prod.mk.injEq] at h
+    exact h.2
+  exact ⟨a.toJ, (filterA t a).out.toJ, parseTopA_toJ data a ha, hp,
+    filterA_agrees t hwf a (by rw [he]; exact hne)⟩
 
 end Martian.JsonBytes
